@@ -551,8 +551,8 @@ def field_offsets(recipe):
         elif k == "lp":
             out += [(b + 2, 1, "lp.namelen"), (b + 3, 1, "lp.count")]
         elif k == "ed":
-            out += [(b, 1, "ed.creator"), (b + 4, 4, "ed.payload_head")]
+            out += [(b, 1, "ed.creator"), (b + 4, min(4, end - (b + 4)), "ed.payload_head")]
         elif k == "ud":
             # the first bytes of a payload are where parser plugins keep their own counts / lengths
-            out += [(b, 4, "ud.payload_head")]
+            out += [(b, min(4, end - b), "ud.payload_head")]
     return out
